@@ -510,6 +510,25 @@ theorem piecewise_glob_test_is_unsound :
     expandPieces false false false ps ["a".toList, "b".toList, "c".toList] = some ["a".toList, "b".toList] := by
   decide +kernel
 
+/-- The dot-file rule looks at the component's text (the pieces' texts joined, quoting undone) — for
+every piece list, empty pieces included. -/
+theorem dot_rule_reads_meaning (ps : List PatPiece) :
+    componentStartsWithDot ps = startsWithDot (ps.flatMap PatPiece.raw) := by
+  induction ps with
+  | nil => simp [componentStartsWithDot, startsWithDot]
+  | cons p ps ih =>
+    cases hr : p.raw with
+    | nil =>
+      have : componentStartsWithDot (p :: ps) = componentStartsWithDot ps := by
+        simp [componentStartsWithDot, List.find?_cons, hr]
+      simp only [this, ih, List.flatMap_cons, hr, List.nil_append]
+    | cons c t =>
+      have : componentStartsWithDot (p :: ps) = startsWithDot (c :: t) := by
+        simp [componentStartsWithDot, List.find?_cons, hr]
+      simp only [this, List.flatMap_cons, hr, List.cons_append]
+      unfold startsWithDot
+      split <;> simp_all
+
 /-- Pathname expansion of a one-component piece list is bash's, whenever the joined text requires
 expansion: same guards as for matching (the two readings of the text agree, no `!(…)`, no named
 class under nocase), any directory contents, dotglob on or off. -/
@@ -529,9 +548,8 @@ theorem expandPieces_eq_spec_partial (ext nc dotglob : Bool) (ps : List PatPiece
   apply List.filter_congr
   intro n _
   rw [hm n]
-  cases ps with
-  | nil => simp
-  | cons p ps => simp [Bool.or_assoc]
+  rw [dot_rule_reads_meaning]
+  simp [Bool.or_assoc]
 
 example :
     let ps := [PatPiece.pat "[a".toList, .lit "b".toList, .pat "]".toList]
@@ -576,6 +594,119 @@ theorem quoted_operator_is_literal :
     (specParse false (specPiecesText rng)).map eraseEsc = some (eraseEsc (parsePat false (joinPieces rng))) ∧
     piecesMatch true false grp ['a'] = false ∧ piecesMatch true false grp "@(a|b)".toList = true ∧
     piecesMatch false false cls ['a'] = false ∧ piecesMatch false false cls "a]".toList = true := by
+  decide +kernel
+
+/-! ## the dot-file rule is about what the component means, not how its leading dot was written -/
+
+/-- A component that starts with a dot admits dot-files whether the dot was written bare, quoted or
+came out of a variable: with it in front, `dotglob` makes no difference — for every rest of the
+component and every directory. -/
+theorem leading_dot_admits_dotfiles_however_written (ext nc : Bool) (l : Str) (rest : List PatPiece)
+    (names : List Str) :
+    expandPieces ext nc false (.lit ('.' :: l) :: rest) names = expandPieces ext nc true (.lit ('.' :: l) :: rest) names ∧
+    expandPieces ext nc false (.pat ('.' :: l) :: rest) names = expandPieces ext nc true (.pat ('.' :: l) :: rest) names := by
+  simp [expandPieces, componentStartsWithDot, List.find?_cons, PatPiece.raw, startsWithDot]
+
+/-- quoting a leading dot does not change which names a component matches (`'.'a*`, `"."a*`, `.a*`) -/
+theorem quoted_leading_dot_matches_the_same_names :
+    let names := ["a".toList, "ab".toList, ".a".toList, ".ab".toList, ".b".toList, "..x".toList]
+    expandPieces false false false [.lit ".".toList, .pat "a*".toList] names = some [".a".toList, ".ab".toList] ∧
+    expandPieces false false false [.pat ".a*".toList] names = some [".a".toList, ".ab".toList] ∧
+    expandPieces false false false [.lit ".a".toList, .pat "*".toList] names = some [".a".toList, ".ab".toList] ∧
+    specExpandPieces false false false [.lit ".".toList, .pat "a*".toList] names = some [".a".toList, ".ab".toList] ∧
+    expandPieces false false false [.pat "[.]a*".toList] names = some [] ∧
+    expandPieces false false false [.pat "*".toList] names = some ["a".toList, "ab".toList] := by
+  decide +kernel
+
+private theorem joinPieces_filter_nonempty (ps : List PatPiece) :
+    joinPieces (ps.filter fun p => !p.raw.isEmpty) = joinPieces ps := by
+  induction ps with
+  | nil => rfl
+  | cons p ps ih =>
+    cases p with
+    | lit l =>
+      cases l with
+      | nil => simpa [joinPieces, PatPiece.raw, PatPiece.text, escapeLiteral] using ih
+      | cons c t => simpa [joinPieces, PatPiece.raw] using ih
+    | pat l =>
+      cases l with
+      | nil => simpa [joinPieces, PatPiece.raw, PatPiece.text] using ih
+      | cons c t => simpa [joinPieces, PatPiece.raw] using ih
+
+private theorem flatMap_raw_filter_nonempty (ps : List PatPiece) :
+    (ps.filter fun p => !p.raw.isEmpty).flatMap PatPiece.raw = ps.flatMap PatPiece.raw := by
+  induction ps with
+  | nil => rfl
+  | cons p ps ih =>
+    cases hr : p.raw with
+    | nil => simp [List.filter_cons, hr, ih]
+    | cons c t => simp [List.filter_cons, hr, ih]
+
+/-- Empty pieces are irrelevant to pathname expansion: the piece `d/` leaves an empty piece at the
+head of the next component (`d/'.'a*`), and it changes nothing — neither what matches nor the
+dot-file rule. (Until the repair of `Pattern::expand` the rule read that empty piece and `d/'.'a*`
+hid `d/.a`.) -/
+theorem dot_rule_ignores_empty_pieces (ext nc dotglob : Bool) (ps : List PatPiece) (names : List Str) :
+    expandPieces ext nc dotglob ps names =
+      expandPieces ext nc dotglob (ps.filter fun p => !p.raw.isEmpty) names := by
+  simp only [expandPieces, piecesText_eq_join, piecesMatch, dot_rule_reads_meaning,
+    joinPieces_filter_nonempty, flatMap_raw_filter_nonempty]
+
+/-- the former counter-example: `d/'.'a*` (second component: empty piece, quoted `.`, `a*`) lists the dot-files -/
+theorem empty_first_piece_does_not_hide_dotfiles :
+    expandPieces false false false [.pat [], .lit ".".toList, .pat "a*".toList] ["a".toList, ".a".toList, ".ab".toList]
+      = some [".a".toList, ".ab".toList] := by
+  decide +kernel
+
+/-! ## matching does not depend on the execution context
+
+`exactlyMatches`, `piecesMatch` and `expandPieces` are functions of the pattern text (or pieces), the
+subject (or directory listing) and the listed options only; the one piece of state the real code
+keeps between uses is the compiled-regex cache. Its key holds everything compilation depends on,
+so no history of earlier uses — other patterns, the same pattern under other options, uses inside
+functions or subshells that share the cache — can change an answer. -/
+
+private theorem cacheGet_inv {β : Type} (compile : CKey → β) (cap : Nat) (c : List (CKey × β)) (k : CKey)
+    (h : ∀ e ∈ c, e.2 = compile e.1) :
+    (cacheGet compile cap c k).1 = compile k ∧ ∀ e ∈ (cacheGet compile cap c k).2, e.2 = compile e.1 := by
+  unfold cacheGet
+  split
+  · rename_i e he
+    have hk : e.1 = k := by simpa using List.find?_some he
+    have hm : e ∈ c := List.mem_of_find?_eq_some he
+    refine ⟨by rw [h e hm, hk], ?_⟩
+    intro x hx
+    rcases List.mem_cons.mp hx with rfl | hx
+    · exact h _ hm
+    · exact h x (List.mem_filter.mp hx).1
+  · refine ⟨rfl, ?_⟩
+    intro x hx
+    have hx' := List.mem_of_mem_take hx
+    rcases List.mem_cons.mp hx' with rfl | hx'
+    · rfl
+    · exact h x hx'
+
+private theorem runCache_inv {β : Type} (compile : CKey → β) (cap : Nat) (ks : List CKey) :
+    ∀ c : List (CKey × β), (∀ e ∈ c, e.2 = compile e.1) → runCache compile cap c ks = ks.map compile := by
+  induction ks with
+  | nil => intro c _; rfl
+  | cons k ks ih =>
+    intro c h
+    have := cacheGet_inv compile cap c k h
+    simp only [runCache, List.map_cons]
+    rw [this.1, ih _ this.2]
+
+/-- For every compile function, capacity and sequence of lookups (any patterns, any flags, in any
+order, repeated or not): the cached answers are the fresh answers. -/
+theorem regex_cache_is_transparent {β : Type} (compile : CKey → β) (cap : Nat) (ks : List CKey) :
+    runCache compile cap [] ks = ks.map compile :=
+  runCache_inv compile cap ks [] (by simp)
+
+/-- non-vacuity: the same pattern under nocasematch off / on / off again, through a cache of one entry -/
+example :
+    let compile := fun k : CKey => exactlyMatches false k.nc k.text "AB".toList
+    runCache compile 1 [] [⟨"a*".toList, false, true⟩, ⟨"a*".toList, true, true⟩, ⟨"a*".toList, false, true⟩,
+      ⟨"a*".toList, true, true⟩] = [false, true, false, true] := by
   decide +kernel
 
 /-! ## pathname expansion of one component in one directory -/
